@@ -1006,4 +1006,5 @@ Definition win_term_resize (st : root) (tm : term) (nl nc : Z) : root * term :=
   let st1 := win_resize st (t_id (r_tree st)) nl nc in
   let st2 := if nl >? oldl then win_expose st1 (t_id (r_tree st)) (Some (mkRect oldl 0 (nl - oldl) nc)) else st1 in
   let st3 := if nc >? oldc then win_expose st2 (t_id (r_tree st)) (Some (mkRect 0 oldc oldl (nc - oldc))) else st2 in
-  (st3, tm1).
+  (* the cursor's cell may have left the screen: restore requested (C15-d) *)
+  (request_restore st3, tm1).
